@@ -210,6 +210,7 @@ class PX:
         self.cur_site = (None, None)
         self.search_bounds_used = set()
         self.fid = 0
+        self.ga_stack = []        # generic arguments of the calls being explored inline (innermost last): const generics of helpers
         from . import models
         self.models = models
 
@@ -1087,7 +1088,11 @@ class PX:
                 # rust-call ABI: Fn::call(closure, (a, b, ..)) - the closure body takes its arguments spread
                 args = [args[0]] + list(args[1][1])
             st.events.append(('enter', target, tuple(args), t['sp'], fn, bi))
-            outs = self._run(st, target, args, depth + 1)
+            self.ga_stack.append(t.get('ga', ''))
+            try:
+                outs = self._run(st, target, args, depth + 1)
+            finally:
+                self.ga_stack.pop()
             res = []
             for s2, rv in outs:
                 s2.events.append(('leave', target, rv, t['sp']))
@@ -1095,6 +1100,17 @@ class PX:
                     rv = ('ret', target, tuple(args), rv)
                 res.append((s2, rv))
             return res
+        if target is None and re.search(r'ops::(function::)?Fn(Once|Mut)?::call(_once|_mut)?$', name) and len(args) == 2 and args[1][0] == 'tuple':
+            # a callback parameter invoked inside an inlined generic helper: the callee is the closure / fn item the caller passed
+            fv = args[0]
+            for _ in range(3):
+                if fv[0] in ('ref', 'cref'):
+                    try:
+                        fv = self.deref_value(st, fv)
+                    except Exception:
+                        break
+            if fv[0] in ('closure', 'fn'):
+                return self.call_closure(st, fv, list(args[1][1]), depth)
         st.events.append(ev)
         self.cur_site = (fn, bi)
         # the std / tinystr summaries are keyed by path suffixes: they must never be applied to a repository function that happens to be
